@@ -20,7 +20,7 @@ type c15Hook struct {
 	attempts int // triggers that reached the hook (each counts against its limit)
 }
 
-//verif:h prop=C15 p.events=4/5 cover=hook,unhook,trigger,limited,unhook-in-callback runs=5000000 timeout=250/900
+//verif:h prop=C15 p.events=4/5 cover=hook,unhook,trigger,limited,unhook-in-callback runs=5000000 timeout=900/900
 func H_C15_event_hist() {
 	evMax := verifrt.Choose("eventMax", 3) // 0 = unlimited
 	var opts []Option
@@ -111,7 +111,7 @@ func H_C15_event_hist() {
 // H_C15_event_link: an event linked with LinkTo fires exactly once per trigger of its current target and no
 // longer for a former target.
 //
-//verif:h prop=C15 p.events=4/5 cover=link,relink,unlink,fired runs=5000000 timeout=250/900
+//verif:h prop=C15 p.events=4/5 cover=link,relink,unlink,fired runs=5000000 timeout=900/900
 func H_C15_event_link() {
 	targets := [2]*Event1[int]{New1[int](), New1[int]()}
 	linked := New1[int]()
@@ -150,7 +150,7 @@ func H_C15_event_link() {
 // H_C15_event_conc: concurrent Triggers against a limit fire exactly min(n, triggers) times; Trigger racing
 // with Hook / Unhook calls a hook at most once per trigger and never after Unhook has returned.
 //
-//verif:h prop=C15 preempt=2/3 cover=limit,race runs=5000000 timeout=250/900
+//verif:h prop=C15 preempt=2/3 cover=limit,race runs=5000000 timeout=900/900
 func H_C15_event_conc() {
 	mode := verifrt.Choose("mode", 2)
 	var wg sync.WaitGroup
